@@ -100,7 +100,7 @@ func (c *Client) handleList() error {
 		case *ListCommand:
 			return true // TODO: match pattern, check if already handled
 		case *SelectCommand:
-			return cmd.mailbox == data.Mailbox && cmd.data.List == nil
+			return sameMailbox(cmd.mailbox, data.Mailbox) && cmd.data.List == nil
 		default:
 			return false
 		}
